@@ -533,7 +533,24 @@ where
         off: usize,
         re_str: &'a str,
     ) -> LexInternalBuildResult<(Vec<usize>, std::borrow::Cow<'a, str>)> {
-        if !re_str.starts_with('<') {
+        // Split off any start states: what remains is the regex, which is unescaped in either case.
+        let (start_states, re_str) = if re_str.starts_with('<') {
+            match re_str.find('>') {
+                None => return Err(self.mk_error(LexErrorKind::InvalidStartState, off)),
+                Some(j) => {
+                    let start_states = re_str[1..j]
+                        .split(',')
+                        .map(|s| s.trim_matches(matches_whitespace))
+                        .map(|s| self.get_start_state_by_name(off, s))
+                        .map(|s| s.map(|ss| ss.id))
+                        .collect::<LexInternalBuildResult<Vec<usize>>>()?;
+                    (start_states, &re_str[j + 1..])
+                }
+            }
+        } else {
+            (vec![], re_str)
+        };
+        {
             /// This implements the 'Table: Escape Sequences in lex' from POSIX lex specification
             ///
             /// Most of the escape handling is left to regex, except this part:
@@ -632,20 +649,7 @@ where
                 }
                 Cow::from(unescaped)
             }
-            Ok((vec![], unescape(Cow::from(re_str), &self.lex_flags)))
-        } else {
-            match re_str.find('>') {
-                None => Err(self.mk_error(LexErrorKind::InvalidStartState, off)),
-                Some(j) => {
-                    let start_states = re_str[1..j]
-                        .split(',')
-                        .map(|s| s.trim_matches(matches_whitespace))
-                        .map(|s| self.get_start_state_by_name(off, s))
-                        .map(|s| s.map(|ss| ss.id))
-                        .collect::<LexInternalBuildResult<Vec<usize>>>()?;
-                    Ok((start_states, Cow::from(&re_str[j + 1..])))
-                }
-            }
+            Ok((start_states, unescape(Cow::from(re_str), &self.lex_flags)))
         }
     }
 
